@@ -124,10 +124,9 @@ pub fn module_source(name: &str, gen: &Generated, code_path: &Path) -> Result<St
                 "        fn {fname}(&mut self, _diags: &mut Vec<Diagnostic>) {{ self.context.log(Ev {{ kind: EvKind::Action, name: \"{n}\", pos: self.pos, node: 0, in_choice: self.in_ordered_choice, ok: true, peek: [0; 3], answer: true, node_len: self.cst.data.nodes.len() }}); }}\n"
             ));
         } else if let Some(n) = fname.strip_prefix("create_node_") {
-            let idx = rule_names
-                .iter()
-                .position(|x| x == n)
-                .ok_or(format!("create_node_{n}: no such rule kind"))?;
+            // (a name that cannot be found means the emitted enum is already inconsistent, e.g. two rule
+            // names mapping to one variant: let rustc report that)
+            let idx = rule_names.iter().position(|x| x == n).unwrap_or(0);
             callbacks.push_str(&format!(
                 "        fn {fname}(&mut self, n: NodeRef, _diags: &mut Vec<Diagnostic>) {{ let ok = vexec::tree::subtree_ok(&copy_nodes(&self.cst.data.nodes), n.0, {idx}); self.context.log(Ev {{ kind: EvKind::Create, name: \"{n}\", pos: self.pos, node: n.0, in_choice: self.in_ordered_choice, ok, peek: [0; 3], answer: true, node_len: self.cst.data.nodes.len() }}); }}\n"
             ));
